@@ -279,7 +279,9 @@ func execC09(t *testing.T, plan *Plan) *Outcome {
 				done := false
 				sim.Go(fmt.Sprintf("drain-%s-%d", a.t.Name, si), false, func(task *simrt.Task) {
 					a.t = task
-					for i := 0; i < 40 && st.ended == "" && !e.failed(); i++ {
+					// (as many calls as there are events in the whole log, and a few more: the drain ends when a call
+					// delivers nothing)
+					for i := 0; i < len(log)+5 && st.ended == "" && !e.failed(); i++ {
 						before := len(st.events)
 						t0 := sim.Elapsed()
 						c := a.exec(&Op{K: "next", N: si, Ctx: "deadline", Ms: 5000})
